@@ -241,6 +241,32 @@ def check_scalar_tables(ctx, prog, tag):
     ctx.floor("C16.T4 deserialize_any arms" + tag, m, 9)
 
 
+def check_json_autoescape(ctx, prog, tag):
+    """T5: under JSON auto-escaping every printed value is what the JSON serializer produced.  The JSON arm of
+    write_escaped hands the value to json_escape_write only, and every path through json_escape_write passes
+    serde_json (no Display fast path: `NaN`/`inf`, unquoted strings ... are not JSON)."""
+    J = "minijinja::utils::json_escape_write"
+    if not prog.has_fn(J):
+        ctx.count("configs without the json feature")
+        return
+    f = prog.fn(J)
+    ser = {c.bb for c in f.calls() if c.name.startswith("serde_json::") and c.name.split("::")[-1] in (
+        "to_string", "to_writer", "to_vec", "to_string_pretty", "to_writer_pretty", "to_value", "serialize")}
+    ctx.ob("C16.T5.json-autoescape-writes-serializer-output", tag + J, bool(ser) and cfg.paths_must_pass(f, 0, ser, f.returns()),
+           "a path through json_escape_write returns without passing the JSON serializer: what it writes there (the "
+           "Display form of the value) is not JSON for non-finite floats, strings, none ...", f.loc)
+    we = prog.fn("minijinja::utils::write_escaped")
+    from .. import arms
+    AE = "minijinja::utils::AutoEscape"
+    sw = arms.enum_switches(prog, we, AE)
+    ctx.need(sw, "C16.T5: write_escaped has no switch on AutoEscape")
+    regs = arms.arm_regions(prog, we, sw[0][0], AE)
+    sinks = sorted({c.name for c in arms.calls_in(we, regs.get("Json", set())) if c.args and any(
+        we.locals[op_place(a)["l"]].get("adt") == "minijinja::output::Output" for a in c.args if op_place(a) and "p" not in op_place(a))})
+    ctx.ob("C16.T5.json-arm-goes-through-the-json-writer", tag + "write_escaped|Json", sinks == [J],
+           "the Json arm of write_escaped passes the output to %s" % sinks, we.loc)
+
+
 def run(ctx):
     ctx.explain("C16 (tojson HTML-safety clause only): structural filter rule on the closure that post-processes the "
                 "serialised JSON: the only returned safe string is a buffer written char by char, the default arm "
@@ -290,6 +316,7 @@ def run(ctx):
         tag = "" if cname == "MAX" else "[%s]" % cname
         check_serialization_scope(ctx, prog, tag)
         check_scalar_tables(ctx, prog, tag)
+        check_json_autoescape(ctx, prog, tag)
     # positive control
     cprog = ctx.controls
     sub = type(ctx)(ctx.prop, ctx.tier, ctx.repo)
